@@ -3,7 +3,7 @@ import Lemmas.Online.Basic
 namespace Model.Online
 open Spec.Online
 
-variable {α σ : Type} (ap : α → σ → σ)
+variable {α σ : Type} (ap : α → σ → σ) (kd : FailKind)
 
 /-! ### `begin_transaction` / `_ProxyTransaction.__exit__` / leaving the connection -/
 
@@ -72,12 +72,12 @@ theorem runLoop_cons (c : Cfg) (p : List (Atom α)) (r : List (List (Atom α))) 
 
 /-- the oracle's run always raises -/
 theorem runLoop_raises (c : Cfg) (A : List (List (Atom α))) (p : List (Atom α)) (st : St σ) :
-    (runLoop ap c (A ++ [p ++ [.raise]]) st).isRaised = true := by
+    (runLoop ap c (A ++ [p ++ [.raise kd]]) st).isRaised = true := by
   induction A generalizing st with
   | nil =>
     simp only [List.nil_append, runLoop_cons]
-    have := runAtoms_raise ap c.mode p (beginTransaction c true st).2
-    cases h : runAtoms ap c.mode (p ++ [.raise]) (beginTransaction c true st).2 with
+    have := runAtoms_raise ap kd c.mode p (beginTransaction c true st).2
+    cases h : runAtoms ap c.mode (p ++ [.raise kd]) (beginTransaction c true st).2 with
     | ok s => rw [h] at this; simp [Outcome.isRaised] at this
     | raised s => simp [Outcome.isRaised]
   | cons q r ih =>
@@ -87,7 +87,7 @@ theorem runLoop_raises (c : Cfg) (A : List (List (Atom α))) (p : List (Atom α)
     | raised s => simp [Outcome.isRaised]
 
 theorem oracle_eq (plan : List (Mig α)) (k pos : Nat) (m : Mig α) (h : plan[k]? = some m) :
-    oracle plan k pos = (plan.take k).map migAtoms ++ [(migAtoms m).take pos ++ [.raise]] := by
+    oracle kd plan k pos = (plan.take k).map migAtoms ++ [(migAtoms m).take pos ++ [.raise kd]] := by
   simp [oracle, h]
 
 theorem runFinal_of_raised (c : Cfg) (pre : List (Stmt α)) (progs : List (List (Atom α))) (db : σ)
@@ -107,7 +107,7 @@ theorem mem_take_stmt {l : List (Atom α)} {n : Nat} {s : Stmt α} (h : Atom.stm
 theorem failing_inv (md : Mode) (Cp Wp : σ → Prop) (hWC : ∀ x, Wp x → Cp x) (m : Mig α) (pos : Nat) (st : St σ)
     (hb : ∀ s, Atom.stmt s ∈ bodyAtoms m.segs → ∀ x, Wp x → Wp (ap s.act x))
     (h0 : st.auto = none) (hc : Cp st.committed) (hw : Wp st.working) :
-    Cp (runAtoms ap md ((migAtoms m).take pos ++ [.raise]) st).st.committed := by
+    Cp (runAtoms ap md ((migAtoms m).take pos ++ [.raise kd]) st).st.committed := by
   unfold migAtoms
   rw [List.take_append]
   by_cases hle : pos ≤ (bodyAtoms m.segs).length
@@ -137,11 +137,11 @@ theorem failing_inv (md : Mode) (Cp Wp : σ → Prop) (hWC : ∀ x, Wp x → Cp 
 /-! ### loop steps -/
 
 theorem runLoop_last (c : Cfg) (p : List (Atom α)) (st : St σ) :
-    (runLoop ap c [p ++ [.raise]] st).st.committed =
-      (runAtoms ap c.mode (p ++ [.raise]) (beginTransaction c true st).2).st.committed := by
+    (runLoop ap c [p ++ [.raise kd]] st).st.committed =
+      (runAtoms ap c.mode (p ++ [.raise kd]) (beginTransaction c true st).2).st.committed := by
   rw [runLoop_cons]
-  have := runAtoms_raise ap c.mode p (beginTransaction c true st).2
-  cases h : runAtoms ap c.mode (p ++ [.raise]) (beginTransaction c true st).2 with
+  have := runAtoms_raise ap kd c.mode p (beginTransaction c true st).2
+  cases h : runAtoms ap c.mode (p ++ [.raise kd]) (beginTransaction c true st).2 with
   | ok s => rw [h] at this; simp [Outcome.isRaised] at this
   | raised s => simp [Outcome.st, exitIf_exc_committed]
 
@@ -168,20 +168,20 @@ theorem runLoop_perMig_proj {ρ : Type} (π : σ → ρ) (c : Cfg) (h : PerMigRe
     (hb : ∀ s, Atom.stmt s ∈ bodyAtoms m.segs → ∀ x, π (ap s.act x) = π x)
     (done : List (Mig α)) (st : St σ) (ha : st.auto = none) (ht : st.txn = false)
     (hcw : π st.committed = π st.working) :
-    π (runLoop ap c (done.map migAtoms ++ [(migAtoms m).take pos ++ [.raise]]) st).st.committed =
+    π (runLoop ap c (done.map migAtoms ++ [(migAtoms m).take pos ++ [.raise kd]]) st).st.committed =
       π (applyAll ap (planActs done) st.working) := by
   induction done generalizing st with
   | nil =>
     simp only [List.map_nil, List.nil_append, planActs, applyAll, List.foldl_nil]
     rw [runLoop_last]
     have hf := beginTransaction_fields c true st
-    apply failing_inv ap c.mode (fun x => π x = π st.working) (fun x => π x = π st.working) (fun _ hx => hx) m pos
+    apply failing_inv ap kd c.mode (fun x => π x = π st.working) (fun x => π x = π st.working) (fun _ hx => hx) m pos
     · intro s hs x hx; rw [hb s hs x]; exact hx
     · rw [hf.2.2]; exact ha
     · rw [hf.1]; exact hcw
     · rw [hf.2.1]
   | cons m' r ih =>
-    obtain ⟨st3, e, a3, t3, w3, c3⟩ := runLoop_cons_perMig ap c h m' (r.map migAtoms ++ [(migAtoms m).take pos ++ [.raise]]) st ha ht
+    obtain ⟨st3, e, a3, t3, w3, c3⟩ := runLoop_cons_perMig ap c h m' (r.map migAtoms ++ [(migAtoms m).take pos ++ [.raise kd]]) st ha ht
     simp only [List.map_cons, List.cons_append]
     rw [e, ih st3 a3 t3 (by rw [c3]), w3, planActs_cons, applyAll_append]
 
@@ -190,19 +190,19 @@ theorem runLoop_perMig_proj {ρ : Type} (π : σ → ρ) (c : Cfg) (h : PerMigRe
 theorem runLoop_perMig_exact (c : Cfg) (hm : c.mode = .transactional) (h : PerMigRegime c) (m : Mig α) (pos : Nat)
     (hna : noAuto ((migAtoms m).take pos) = true)
     (done : List (Mig α)) (st : St σ) (ha : st.auto = none) (ht : st.txn = false) :
-    (runLoop ap c (done.map migAtoms ++ [(migAtoms m).take pos ++ [.raise]]) st).st.committed =
+    (runLoop ap c (done.map migAtoms ++ [(migAtoms m).take pos ++ [.raise kd]]) st).st.committed =
       if done = [] then st.committed else applyAll ap (planActs done) st.working := by
   induction done generalizing st with
   | nil =>
     simp only [List.map_nil, List.nil_append, if_true]
     rw [runLoop_last, hm]
     have hf := beginTransaction_fields c true st
-    have hna' : noAuto ((migAtoms m).take pos ++ [Atom.raise]) = true := by
+    have hna' : noAuto ((migAtoms m).take pos ++ [Atom.raise kd]) = true := by
       simp only [noAuto, List.all_append, Bool.and_eq_true] at hna ⊢
       exact ⟨hna, by simp [isAutoAtom]⟩
     rw [(runAtoms_transactional_noAuto ap _ _ hna' (by rw [hf.2.2]; exact ha)).1, hf.1]
   | cons m' r ih =>
-    obtain ⟨st3, e, a3, t3, w3, c3⟩ := runLoop_cons_perMig ap c h m' (r.map migAtoms ++ [(migAtoms m).take pos ++ [.raise]]) st ha ht
+    obtain ⟨st3, e, a3, t3, w3, c3⟩ := runLoop_cons_perMig ap c h m' (r.map migAtoms ++ [(migAtoms m).take pos ++ [.raise kd]]) st ha ht
     simp only [List.map_cons, List.cons_append, reduceCtorEq, if_false]
     rw [e, ih st3 a3 t3, c3, w3, planActs_cons, applyAll_append]
     split
@@ -272,9 +272,9 @@ theorem runLoop_boundary {ρ : Type} (π : σ → ρ) (c : Cfg)
     (hbody : ∀ m' ∈ done ++ [m], ∀ s, Atom.stmt s ∈ bodyAtoms m'.segs → ∀ x, π (ap s.act x) = π x)
     (B : ρ → Prop) (base : σ) (st : St σ) (ha : st.auto = none) (hc : B (π st.committed))
     (hw : π st.working = π base) (hB : B (π base)) :
-    B (π (runLoop ap c (done.map migAtoms ++ [(migAtoms m).take pos ++ [.raise]]) st).st.committed) ∨
+    B (π (runLoop ap c (done.map migAtoms ++ [(migAtoms m).take pos ++ [.raise kd]]) st).st.committed) ∨
     ∃ j, j ≤ done.length ∧
-      π (runLoop ap c (done.map migAtoms ++ [(migAtoms m).take pos ++ [.raise]]) st).st.committed =
+      π (runLoop ap c (done.map migAtoms ++ [(migAtoms m).take pos ++ [.raise kd]]) st).st.committed =
         π (applyAll ap (planActs (done.take j)) base) := by
   induction done generalizing st base B with
   | nil =>
@@ -282,7 +282,7 @@ theorem runLoop_boundary {ρ : Type} (π : σ → ρ) (c : Cfg)
     simp only [List.map_nil, List.nil_append]
     rw [runLoop_last]
     have hf := beginTransaction_fields c true st
-    apply failing_inv ap c.mode (fun x => B (π x)) (fun x => π x = π base) (fun x hx => by rw [hx]; exact hB) m pos
+    apply failing_inv ap kd c.mode (fun x => B (π x)) (fun x => π x = π base) (fun x hx => by rw [hx]; exact hB) m pos
     · intro s hs x hx; rw [hbody m (by simp) s hs x]; exact hx
     · rw [hf.2.2]; exact ha
     · rw [hf.1]; exact hc
